@@ -1784,7 +1784,7 @@ phaseG:
 			for _, set := range plan.reqSets {
 				for _, mode := range runModes {
 					in := c07Input{Suites: []c07Suite{suite}, CfgSet: set.Label, RunMode: mode}
-					res := c07Evaluate(&in, set, 2, false)
+					res := c07Evaluate(&in, set, 1, false)
 					c07Report(r, &in, res)
 					r.Count("phaseG evaluations", 1)
 				}
